@@ -86,8 +86,11 @@ CLAIMED["C09"] = {
             "integer / every byte pattern (the 65 536 int16 patterns are an instance, also enumerated completely by the check); "
             "out-of-range is rejected, short buffers read as None; float encodings have the field width and every non-NaN bit pattern of "
             "binary16/32/64 survives decode/encode; missing -> zero/blanks; a binary line is max-stop bytes with each field in its span. "
-            "Rounding to the narrower IEEE width is SpecFloat.binary_normalize, tied bit-for-bit to numpy by the correspondence.",
-    "note": BASE_NOTE + "That SpecFloat.binary_normalize is round-to-nearest-even is Flocq's result, not re-proved; checked against numpy/struct on all float16 patterns and random patterns.",
+            "Theorems through Flocq (C09real.v; 4 stdlib real-number axioms): the model's narrowing IS IEEE round-to-nearest-even into "
+            "binary16/32/64 (nearest-point corollary, overflow -> infinity of the sign), widening to binary64 is exact, and a finite float "
+            "written to a 2/4/8-byte field reads back as the double whose value is x rounded to the field's IEEE width; 8-byte fields read "
+            "back every double bit for bit. Tied bit-for-bit to numpy by the correspondence.",
+    "note": BASE_NOTE + "Checked against numpy/struct on all float16 patterns, midpoint neighbours and random patterns.",
     "technique": "Coq proof (div/mod byte arithmetic, bit-field decomposition) + differential correspondence (complete int16 range)",
 }
 CLAIMED["C11"] = {
